@@ -353,7 +353,15 @@ pub fn gen_field(rng: &mut Rng, ty: &Value, o: &GenOpts, count: usize, out: &mut
                 0 => { let n = rng.pick(&VEH_NAMES).as_bytes(); out.extend_from_slice(&[n[0], n[1], n[2], 0]); },
                 1 => out.extend_from_slice(&[0, 0, 0, 0]),
                 2 if wild => out.extend_from_slice(b"ZZZ\0"),
-                _ => out.extend_from_slice(&[rng.byte() | 0x80, rng.byte(), rng.byte(), 0]),
+                // mod ids of every shape: high first byte, a non-alphanumeric byte in each position, a fourth byte, small numbers
+                _ => match rng.below(6) {
+                    0 => out.extend_from_slice(&[rng.byte() | 0x80, rng.byte(), rng.byte(), 0]),
+                    1 => { let mut b = [*rng.pick(b"AZaz09"), *rng.pick(b"AZaz09"), *rng.pick(b"AZaz09"), 0]; b[rng.below(3) as usize] = *rng.pick(&[0xF3u8, b' ', b'_', 0x7f, 0]); if b == [0, 0, 0, 0] { b[0] = 1; } out.extend_from_slice(&b); },
+                    2 => { let n = rng.pick(&VEH_NAMES).as_bytes(); out.extend_from_slice(&[n[0], n[1], n[2], 1 + rng.below(255) as u8]); },
+                    3 => out.extend_from_slice(&(1 + rng.below(300) as u32).to_le_bytes()),
+                    4 => out.extend_from_slice(&[0xff, 0xff, 0xff, *rng.pick(&[0u8, 0xff])]),
+                    _ => out.extend_from_slice(&(rng.next() as u32 | 0x0100_0000).to_le_bytes()),
+                },
             },
             "Track" => { let mut t = if wild { b"ZZ9".to_vec() } else { rng.pick(&TRACK_CODES).as_bytes().to_vec() }; t.resize(6, 0); out.extend_from_slice(&t); },
             "RaceLaps" | "Fuel" | "Fuel200" => out.push(*rng.pick(&[0u8, 1, 50, 99, 100, 150, 190, 191, 238, 239, 254, 255])),
@@ -394,7 +402,18 @@ pub fn gen_frame(rng: &mut Rng, l: &Value, compressed: bool, o: &GenOpts) -> Vec
         gen_fields(rng, l["fields"].as_array().unwrap(), o, cnt, &mut f);
         match t["k"].as_str() {
             Some("vec") => { for _ in 0..cnt { gen_fields(rng, t["elt"].as_array().unwrap(), o, 0, &mut f); } },
-            Some("set") => { for _ in 0..cnt { let v = (rng.next() as u32) | 0x8000_0000; f.extend_from_slice(&v.to_le_bytes()); } },
+            // set elements are plain 32-bit values (mod ids, addresses): any value is one, including those whose bytes
+            // spell a built-in car name, three alphanumerics, or nothing at all
+            Some("set") => { for _ in 0..cnt {
+                let v: u32 = match rng.below(8) {
+                    0 => 0,
+                    1 => u32::from_le_bytes(*rng.pick(&[*b"XFG\0", *b"UF1\0", *b"ABC\0", *b"xfg\0", *b"A1B\0", *b"XFGX"])),
+                    2 => *rng.pick(&[1u32, 2, 0x00ff_ffff, 0x0100_0000, 0x7fff_ffff, u32::MAX]),
+                    3 => rng.next() as u32,
+                    _ => (rng.next() as u32) | 0x8000_0000,
+                };
+                f.extend_from_slice(&v.to_le_bytes());
+            } },
             Some("streof") => { let n = [0usize, 1, 3, 4, 7, 8, 30, 63, 64][rng.below(9) as usize]; let t = gen_text(rng, n, o.text); f.extend_from_slice(&t.into_iter().filter(|b| *b != 0).collect::<Vec<u8>>()); f.push(0); },
             _ => {},
         }
